@@ -14,6 +14,7 @@ Line protocol for C10.
 
   pl  <same tokens as st>   the first <pre> events are residual frames on an idle pooled connection
       obs:  reused <0|1> <st observation of the remaining events>
+  tm  <tunnel id hex> <node id hex>     Encode/DecodeTargetReadyMessage;  obs: ok <tidhex> <nodehex> | invalid
   fw  me <hex> up <len> <seed> down <len> <seed> cs <k> <size>*k [opt <ct> <cl> <ord>]
       obs:  up <hex> down <hex> done <0|1> cnt <sent|na> <recv|na> closes <n|na>
 
@@ -351,8 +352,16 @@ def parseFwObs : List String → Option FwObs
     if x == "0" || x == "1" then pure ⟨u, d, x == "1", cnt, cl⟩ else none
   | _ => none
 
+def tmObsStr : Option (Bytes × Bytes) → String
+  | some (t, n) => s!"ok {hexOfBytes t} {hexOfBytes n}"
+  | none => "invalid"
+
 def runModel (ts : List String) : String :=
   match ts with
+  | ["tm", t, n] =>
+    match bytesOfHex t, bytesOfHex n with
+    | some t, some n => tmObsStr (decodeTargetReady (encodeTargetReady t n))
+    | _, _ => "bad-case"
   | "pl" :: rest =>
     match parseSt rest with
     | some c =>
@@ -389,6 +398,17 @@ def runModel (ts : List String) : String :=
 /-- The theorem's predicate on an observation; anything unparsable (panic, timeout, …) is `false`. -/
 def runHolds (caseToks obsToks : List String) : String :=
   match caseToks with
+  | ["tm", t, n] =>
+    match bytesOfHex t, bytesOfHex n with
+    | some t, some n =>
+      match obsToks with
+      | ["ok", a, b] =>
+        match bytesOfHex a, bytesOfHex b with
+        | some a, some b => boolStr (holdsTm t n (some (a, b)))
+        | _, _ => "false"
+      | ["invalid"] => boolStr (holdsTm t n none)
+      | _ => "false"
+    | _, _ => "bad-case"
   | "pl" :: rest =>
     match parseSt rest, obsToks with
     | some c, "reused" :: b :: ots =>
